@@ -14,7 +14,7 @@ OUTSIDE = ['more callers / larger capacity than listed', 'AsyncServer (asyncio e
            'process-backed queues and real servlets (see C04/C09/C11 for the worker side)']
 
 
-def run(pid, tier, configs, explanation):
+def run(pid, tier, configs, explanation, extra_jobs=()):
     t0 = time.time()
     known = load_known(pid)
     jobs = []
@@ -22,6 +22,10 @@ def run(pid, tier, configs, explanation):
         scn, p = (c if isinstance(c, tuple) else (S, c))
         jobs.append((run_b_job, ({'property': pid, 'scenario': scn, 'params': p, 'known': known},
                                  3300 if tier == 'thorough' else 1500)))
+    jobs += list(extra_jobs)
     results = run_jobs(jobs)
+    for r in results:
+        if 'module' in (r.get('spec') or {}):
+            r['spec'] = {'params': r['spec']}
     return finish(pid, tier, 'model_checking', results, t0, explanation=explanation, assumptions=ASSUME,
                   outside=OUTSIDE)
